@@ -66,7 +66,7 @@ def make_events(f, idx, ns, quick, seed, budget):
                         h = int(hashlib.sha1(("%s|%s|%d|%d|%d" % (f.version, t["long"], fi, ri, ci)).encode()).hexdigest()[:8], 16)
                         if (h + seed) % budget:
                             continue
-                    body = _variants(form, ci) + rem
+                    body = _variants(form + rem, ci)       # the remainder changes letter case with the rest: it must be kept verbatim each time
                     evs.append({"text": ns + body, "ns": ns, "okns": True, "raw": body.split("/")})
     # namespace faults
     if ns:
@@ -150,21 +150,9 @@ def run(ctx):
                 "(quick: hashed 1/k sample rotating with the seed; thorough: all), plus wrong/missing namespace and "
                 "non-tags; distinct = distinct tag text; non-trivial = all")
     import shutil
-    cfg = "MC_SchemaTree.cfg"
-    made = None
-    if quick:
-        with open(os.path.join(tlc.SPECS, cfg)) as fh:
-            txt = fh.read().replace("MaxN = 4", "MaxN = 3")
-        made = os.path.join(tlc.SPECS, "MC_SchemaTree_q.cfg")
-        with open(made, "w") as fh:
-            fh.write(txt)
-        cfg = "MC_SchemaTree_q.cfg"
-    try:
-        ctx.tlc("MC_SchemaTree", cfg, workers=16, label="model: all labelled trees <= %d nodes, all spellings <= 3 terms" % (3 if quick else 4),
-                timeout=1800)
-    finally:
-        if made:
-            os.remove(made)
+    cfg = ctx.cfg("MC_SchemaTree.cfg", ("MaxN = 4", "MaxN = 3")) if quick else "MC_SchemaTree.cfg"
+    ctx.tlc("MC_SchemaTree", cfg, workers=16, label="model: all labelled trees <= %d nodes, all spellings <= 3 terms" % (3 if quick else 4),
+            timeout=1800)
     versions = [v for v, _ in facts.bundled()]
     if quick:
         plan = [("8.3.0", "", 12), ("score_2.0.0", "sc:", 25), ("testlib_3.0.0", "", 14), ("8.0.0", "tl:", 14)]
